@@ -5,6 +5,7 @@ import (
 
 	"github.com/jawher/mow.cli/internal/container"
 	"github.com/jawher/mow.cli/internal/values"
+	"github.com/jawher/mow.cli/internal/verifhook"
 )
 
 // NewOpt create an option matcher that can consume short and long options
@@ -35,6 +36,7 @@ func (o *opt) Match(args []string, c *ParseContext) (bool, []string) {
 
 	idx := 0
 	for idx < len(args) {
+		verifhook.Point("matcher.opt.loop")
 		arg := args[idx]
 		switch {
 		case arg == "-":
@@ -137,6 +139,7 @@ func (o *opt) matchShortOpt(args []string, idx int, c *ParseContext) (bool, int,
 
 	remIdx := 0
 	for len(rem[remIdx:]) > 0 {
+		verifhook.Point("matcher.short.loop")
 		name := "-" + rem[remIdx:remIdx+1]
 
 		opt, found := o.index[name]
